@@ -58,6 +58,9 @@ pub enum Field {
     /// an 8-bit channel: any difference breaks the tie, a difference above 1 violates the
     /// property ("within one 8-bit step of the independent evaluation")
     B1(u8),
+    /// a token the comparison ignores (an index that may legitimately differ at an exact tie; a direct
+    /// oracle judges it)
+    Any,
 }
 
 pub fn x<T: ToString>(t: T) -> Field {
@@ -92,6 +95,7 @@ pub fn fields_to_string(fs: &[Field]) -> String {
             Field::X(s) => s.clone(),
             Field::FA(v, _) => f(*v),
             Field::B1(b) => b.to_string(),
+            Field::Any => "*".to_string(),
         })
         .collect::<Vec<_>>()
         .join(" ")
